@@ -140,7 +140,36 @@ func ruleC16E2(r *Run, le *LockEngine) {
 					okDom = false
 				}
 			}
-			kl := p.Leaves(reg.Key, provOpts{})
+			if len(sends) == 0 {
+				// the registration lives in a helper of its own: at every call of the helper, the call dominates the
+				// transmissions of the calling function
+				okDom = p.liftToCallers(reg, func(g *ssa.Function, at ssa.Instruction) bool {
+					var ss []ssa.Instruction
+					allInstrs(g, func(ins ssa.Instruction) {
+						cc := instrCall(ins)
+						if cc == nil {
+							return
+						}
+						if isCallNamed(ins, "/wire.ClientConn.SendUpstreamCall") {
+							ss = append(ss, ins)
+							return
+						}
+						for _, a := range cc.Args {
+							if cf := closureOf(a); cf != nil && p.reachesCall(cf, 0, "/wire.ClientConn.SendUpstreamCall") {
+								ss = append(ss, ins)
+							}
+						}
+					})
+					sends = append(sends, ss...)
+					for _, x := range ss {
+						if !dominatesInstr(at, x) {
+							return false
+						}
+					}
+					return len(ss) > 0
+				}, 0)
+			}
+			kl := p.Leaves(reg.Key, provOpts{ParamDepth: 2})
 			okKey := hasLeaf(kl, "field:/message.UpstreamCall.CallID")
 			h := le.HeldAt(reg)
 			okLock := h[recvVarName(fn)+".upstreamCallAckMu"] == modeW
@@ -151,29 +180,65 @@ func ruleC16E2(r *Run, le *LockEngine) {
 			r.Undecided("registration into "+table, "no function registers an ack waiter")
 		}
 	}
-	// call-and-wait: subscribeReply(callID) dominates call(...) and both use the same id
+	// call-and-wait: the registration into replyCallChs (in the function itself, or in a helper it calls with the id)
+	// dominates call(...) and both use the same id
 	caw := r.method("/iscp", "Conn", "SendCallAndWaitReplayCall")
-	sub := r.method("/iscp", "Conn", "subscribeReply")
-	if caw == nil || sub == nil {
+	if caw == nil {
 		return
 	}
 	name := fnName(caw)
-	var subCall *ssa.Call
+	var regAt ssa.Instruction
+	var idv ssa.Value
+	for _, fn := range p.Funcs {
+		if fnPkgPath(fn) != modPath+"/iscp" || fn.Parent() != nil {
+			continue
+		}
+		allInstrs(fn, func(ins ssa.Instruction) {
+			mu, ok := ins.(*ssa.MapUpdate)
+			if !ok {
+				return
+			}
+			u, isU := mu.Map.(*ssa.UnOp)
+			if !isU || fieldKeyOfAddr(u.X) != "/iscp.Conn.replyCallChs" || isLocalObject(pathOf(u.X).Prefix(1)) {
+				return
+			}
+			if fn == caw {
+				regAt, idv = mu, canonVal(mu.Key)
+				return
+			}
+			prm, isP := canonVal(mu.Key).(*ssa.Parameter)
+			if !isP {
+				return
+			}
+			for _, site := range p.staticCallSites(fn) {
+				if site.Parent() != caw {
+					continue
+				}
+				args := callArgs(instrCall(site))
+				for i, q := range fn.Params {
+					if q == prm && i < len(args) {
+						regAt, idv = site, canonVal(args[i])
+					}
+				}
+			}
+		})
+	}
 	var callCall ssa.Instruction
 	allInstrs(caw, func(ins ssa.Instruction) {
-		if c, ok := ins.(*ssa.Call); ok {
-			if c.Call.StaticCallee() == sub {
-				subCall = c
-			} else if cf := c.Call.StaticCallee(); cf != nil && p.Analysed(cf) && p.reachesCall(cf, 1, "/wire.ClientConn.SendUpstreamCall") {
+		if c, ok := ins.(*ssa.Call); ok && ins != regAt {
+			if cf := c.Call.StaticCallee(); cf != nil && p.Analysed(cf) && p.reachesCall(cf, 1, "/wire.ClientConn.SendUpstreamCall") {
 				callCall = ins
 			}
 		}
 	})
-	ok := subCall != nil && callCall != nil && dominatesInstr(subCall, callCall)
+	if regAt == nil {
+		r.Undecided(name+" reply waiter registration", "no store into replyCallChs in the function or in a helper it hands the id to")
+		return
+	}
+	ok := callCall != nil && dominatesInstr(regAt, callCall)
 	same := false
 	if ok {
-		// id passed to subscribeReply is the value stored in the literal's CallID
-		idv := canonVal(subCall.Call.Args[1])
+		// the registered id is the value stored in the literal's CallID
 		uc := p.Named("/message", "UpstreamCall")
 		for _, lit := range literalsOf(caw, uc) {
 			if v, has := lit.Fields["CallID"]; has && canonVal(v) == idv {
@@ -181,7 +246,7 @@ func ruleC16E2(r *Run, le *LockEngine) {
 			}
 		}
 	}
-	r.Check(name+" reply waiter registered before the call", ok && same, p.pos(caw.Pos()), name, fmt.Sprintf("subscribeReply dominates the call: %v; subscribed id is the call's CallID: %v", ok, same))
+	r.Check(name+" reply waiter registered before the call", ok && same, p.pos(caw.Pos()), name, fmt.Sprintf("the registration dominates the call: %v; registered id is the call's CallID: %v", ok, same))
 }
 
 func ruleC16E3(r *Run, le *LockEngine) {
@@ -407,9 +472,17 @@ func ruleCloseBeliefs(r *Run, id string) {
 				okCtx := false
 				var seen []string
 				for _, root := range ctxRoots(cx) {
-					l := p.Leaves(root, provOpts{})
-					seen = append(seen, l...)
-					if hasLeaf(l, "call:/iscp.connStatus.WithCloseStatus") || hasLeaf(l, "field:/iscp.Conn.ctx") {
+					// the context may be a parameter of an unexported helper: then what every caller hands in
+					origins, complete := p.originsThroughParams(root, 0)
+					all := complete && len(origins) > 0
+					for _, o := range origins {
+						l := p.Leaves(o, provOpts{})
+						seen = append(seen, l...)
+						if !hasLeaf(l, "call:/iscp.connStatus.WithCloseStatus") && !hasLeaf(l, "field:/iscp.Conn.ctx") {
+							all = false
+						}
+					}
+					if all {
 						okCtx = true
 					}
 				}
